@@ -96,6 +96,28 @@ example : ∃ c₁ c₂, parseChem (render exToks) [] = .ok c₁ ∧ parseChem (
     parseChem (render exToks ++ render exComp) [] = .ok (addAll c₁ c₂) :=
   parse_append exToks exComp exToks_dom exComp_dom.2
 
+/-- **Parsing is additive on arbitrary formula strings** (not only written ones: implicit counts `CH4`, any valid
+bracket structure, …): if both parts parse and the second part starts a new token — an upper-case letter or a
+bracket — then the composition of the concatenation is the dict sum of the two compositions. -/
+theorem parse_concat (s₁ s₂ : Str) (c₁ c₂ : Comp) (h₁ : parseChem s₁ [] = .ok c₁) (h₂ : parseChem s₂ [] = .ok c₂)
+    (hb : ∀ c r, s₂ = c :: r → isUpper c = true ∨ c = 91) :
+    parseChem (s₁ ++ s₂) [] = .ok (addAll c₁ c₂) :=
+  parseChem_append h₁ h₂ hb
+
+example : ∃ c₁ c₂, parseChem (str% "CH3[13C]C-1.5") [] = .ok c₁ ∧ parseChem (str% "OHC2") [] = .ok c₂ ∧
+    parseChem (str% "CH3[13C]C-1.5" ++ str% "OHC2") [] = .ok (addAll c₁ c₂) := by
+  have h₁ : parseChem (str% "CH3[13C]C-1.5") [] = .ok
+      [(kC, ⟨-1/2, true⟩), (kH, Num.ofInt 3), (k13C, Num.ofInt 1)] := by decide +kernel
+  have h₂ : parseChem (str% "OHC2") [] = .ok [(str% "O", Num.ofInt 1), (kH, Num.ofInt 1), (kC, Num.ofInt 2)] := by
+    decide +kernel
+  exact ⟨_, _, h₁, h₂, parse_concat _ _ _ _ h₁ h₂ (by intro c r h; simp at h; left; rw [← h.1]; decide)⟩
+
+/-- why the boundary condition is needed: a second part starting with a lower-case letter (here the electron `e`)
+fuses with the preceding element symbol — `C` + `e2` reads as cerium. -/
+theorem concat_boundary_counterexample :
+    parseChem (str% "C") [] = .ok [(kC, Num.ofInt 1)] ∧ parseChem (str% "e2") [] = .ok [(kE, Num.ofInt 2)] ∧
+    parseChem (str% "C" ++ str% "e2") [] = .ok [(kCe, Num.ofInt 2)] := by decide +kernel
+
 /-- additivity for the writer's outputs -/
 theorem parse_write_append (E : List Elem) (c₁ c₂ : Comp) (hill₁ hill₂ : Bool) (h₁ : DomComp c₁) (h₂ : DomComp c₂) :
     parseChem (writeChem E c₁ [] hill₁ ++ writeChem E c₂ [] hill₂) [] =
